@@ -90,7 +90,7 @@ def main():
                 e = out.setdefault(key, dict(key=key, invariant=reason, configs=[]))
                 if cfg not in e['configs']:
                     e['configs'].append(cfg)
-                if s['kind'] == 'panic':
+                if s['kind'] in ('panic', 'unwrap'):
                     e.setdefault('when', {})[cfg] = s.get('when')
     for k, w in unmatched:
         print('UNMATCHED', w, k[:220])
